@@ -123,7 +123,16 @@ def shutdown_summary(F, body, _depth=0):
             if not (dominates(body, d.bb, f.bb, dom) and f.bb != d.bb and body.must_pass([f.bb])):
                 continue
             for x in drops:
-                if dominates(body, f.bb, x, dom) and x != f.bb and body.must_pass([x]):
+                same_helper = False
+                if x == f.bb:
+                    # one private helper does both (`fn close(self) { flush; drop(stream) }`): inside it the flush comes first on every path
+                    for sb in local_callee_bodies(F, f):
+                        if sb.crate == body.crate and sb is not body:
+                            hf = [c.bb for c in sites_reaching(F, sb, is_stream_flush)]
+                            hd = _stream_drops_only(F, sb)
+                            sdom = sb.dominators()
+                            same_helper = bool(hf) and bool(hd) and sb.must_pass(hf) and all(any(dominates(sb, a_, d_, sdom) and a_ != d_ for a_ in hf) for d_ in hd)
+                if (dominates(body, f.bb, x, dom) and x != f.bb or same_helper) and body.must_pass([x]):
                     # nothing touches the stream afterwards
                     after = body.reachable_after(x)
                     late = [c for c in drains + flushes if c.bb in after]
